@@ -164,6 +164,8 @@ def tstr(t):
 def errname(e):
     if isinstance(e, POSException.POSKeyError):
         return 'err:KeyError'
+    if isinstance(e, POSException.ReadConflictError):
+        return 'err:ReadConflict'
     if isinstance(e, POSException.ConflictError):
         return 'err:Conflict'
     if isinstance(e, POSException.UndoError):
@@ -332,6 +334,9 @@ class Real:
                 return 'ok' + self.check_lower()
             if c == 'store':
                 top.store(p64(int(t[2])), real_tid(t[3]), pickle_of(t[4]), '', self.txn(t[1]))
+                return 'ok' + self.check_lower()
+            if c == 'cc':
+                top.checkCurrentSerialInTransaction(p64(int(t[2])), real_tid(t[3]), self.txn(t[1]))
                 return 'ok' + self.check_lower()
             if c == 'delete':
                 top.deleteObject(p64(int(t[2])), real_tid(t[3]), self.txn(t[1]))
@@ -562,6 +567,16 @@ class World:
             if outcome.startswith('ok'):
                 lv.txn[2][o] = int(t[4]) if c == 'store' else None
             return exp
+        if c == 'cc':
+            # readCurrent: accepted iff the serial is that of the current revision of the ONE database
+            if lv.txn is None or lv.txn[0] != t[1]:
+                return 'err:Txn' if (demo or lv.txn is not None) else None
+            r = self.revs(int(t[2]))
+            if not r:
+                return 'err:KeyError'
+            if r[-1][1] is None:
+                return None
+            return 'ok' if int(t[3]) == r[-1][0] else 'err:ReadConflict'
         if c == 'vote':
             if lv.txn is None or lv.txn[0] != t[1]:
                 return 'err:Txn'
@@ -729,7 +744,8 @@ def run_oracle(ops, real, present):
 
 SIGS = {'lb': 'loadBefore', 'load': 'load', 'ls': 'loadSerial', 'gt': 'getTid', 'hist': 'history',
         'last': 'lastTransaction', 'iter': 'iterator', 'iterr': 'iterator', 'store': 'store',
-        'newoid': 'new_oid', 'pop': 'pop', 'push': 'push', 'pushwith': 'push', 'finish': 'demo-tid-below-base'}
+        'newoid': 'new_oid', 'pop': 'pop', 'push': 'push', 'pushwith': 'push', 'finish': 'demo-tid-below-base',
+        'cc': 'readCurrent'}
 
 
 def signature(ops, i, real):
@@ -822,6 +838,17 @@ class Gen:
                 self.emit('vote %d' % x)
                 self.emit('finish %d' % x)
                 return
+        # readCurrent declarations: current serial, or a non-current one from either layer
+        for _ in range(rng.choice([0, 0, 1, 2])):
+            o = rng.choice(self.pool + [9])
+            r = w.revs(o)
+            if r and r[-1][1] is None:
+                continue
+            if r and rng.random() < 0.5:
+                ser = rng.choice([t for t, _ in r[:-1]] + [0, r[-1][0] + 1, r[-1][0] - 1])
+            else:
+                ser = r[-1][0] if r else 0
+            self.emit('cc %d %d %d' % (x, o, ser))
         cands = sorted(set(self.pool) | lv.issued)
         n = rng.choice([1, 1, 2, 2, 3])
         chosen = rng.sample(cands, min(n, len(cands)))
@@ -1093,6 +1120,18 @@ def probe_undo_over_base(tmp, rng):
     data, serial = demo.load(p64(1))
     if data_id(data) != 1:
         a = (a or '') + ' load after undo returns data %r' % data_id(data)
+    # a reader that saw the undone revision (serial 200) and declares readCurrent must be refused
+    t = TransactionMetaData()
+    demo.tpc_begin(t, p64(350))
+    try:
+        demo.checkCurrentSerialInTransaction(p64(1), p64(200), t)
+        rc = 'accepted'
+    except POSException.ReadConflictError:
+        rc = None
+    demo.tpc_abort(t)
+    if rc:
+        raise AssertionError('checkCurrentSerialInTransaction(oid 1, serial 200) is accepted after the revision '
+                             '200 was undone through the demo storage (merged current serial is %d)' % u64(serial))
     try:
         commit(demo, 400, [(1, serial, 3)])
     except POSException.ConflictError:
